@@ -105,6 +105,10 @@ def warm(obj):
         pass
 
 
+def _scalar_form(args):
+    return (len(repr(sorted(args.items()))) % 2) == 0
+
+
 def call(df, emb, obj, st):
     """perform the public call described by step record st on obj; returns the return value (may raise)"""
     kind, args, ip = st["kind"], st["args"], st["inplace"]
@@ -112,11 +116,15 @@ def call(df, emb, obj, st):
     nd = obj.region.ndim if isinstance(obj, df.Mesh) else (obj.mesh.region.ndim if isinstance(obj, df.Field) else obj.ndim)
     dims = DIMS[:nd]
     if kind == "translate":
-        return obj.translate(tuple(emb.length(frac(c)) for c in args["v"]), inplace=ip)
+        v = tuple(emb.length(frac(c)) for c in args["v"])
+        # one dimension: a plain number is a vector / a factor / a reference point (every second time)
+        return obj.translate(v[0] if (nd == 1 and _scalar_form(args)) else v, inplace=ip)
     if kind == "scale":
         s = [frac(c) for c in args["s"]]
         factor = _num(s[0]) if len(set(s)) == 1 else tuple(_num(c) for c in s)
         ref = None if args["ref"] == () else tuple(emb.x(frac(c)) for c in args["ref"])
+        if nd == 1 and ref is not None and _scalar_form(args):
+            ref = ref[0]
         return obj.scale(factor, reference_point=ref, inplace=ip)
     if kind == "rotate90":
         ref = None if args["ref"] == () else tuple(emb.x(frac(c)) for c in args["ref"])
